@@ -179,8 +179,8 @@ func (a *Act) copyElems(st *State, dst, src Val, n string, et types.Type) {
 		nh := vc.fresh("Hc_"+ek.key, ek.sort)
 		// copied range
 		vc.assume(st.guard, fmt.Sprintf("(forall ((i Int)) (! (=> (and (<= 0 i) (< i %s)) (= (select %s %s) (select %s %s))) :pattern ((select %s %s))))",
-			n, nh, ek.addr(fmt.Sprintf("(elem (sl_arr %s) (+ (sl_off %s) i))", d, d)), old, ek.addr(fmt.Sprintf("(elem (sl_arr %s) (+ (sl_off %s) i))", s, s)),
-			nh, ek.addr(fmt.Sprintf("(elem (sl_arr %s) (+ (sl_off %s) i))", d, d))))
+			n, nh, ek.addr(fmt.Sprintf("(selem %s i)", d)), old, ek.addr(fmt.Sprintf("(selem %s i)", s)),
+			nh, ek.addr(fmt.Sprintf("(selem %s i)", d))))
 		// frame: locations that are not elements of the destination array are unchanged
 		vc.assume(st.guard, fmt.Sprintf("(forall ((x Int)) (! (=> (not %s) (= (select %s x) (select %s x))) :pattern ((select %s x))))", vc.g.regionMember("x", "(sl_arr "+d+")", ek.path), nh, old, nh))
 		st.heap[ek.key] = nh
